@@ -22,6 +22,7 @@ RepLimit == 2
 MaxDepth == 1
 GasMax == 1000
 ChildGasShared == FALSE
+CONSTANT Answer(_, _)
 INSTANCE VmExec
 
 P(w) == [n |-> "PUSH", w |-> w]
